@@ -537,12 +537,15 @@ func (ego *object) ForEachAsync(function func(string, any)) Object {
 	var wg sync.WaitGroup
 	step := func(group *sync.WaitGroup, k string, x any) {
 		function(k, x)
+		verifPoint("object.ForEachAsync.done")
 		group.Done()
 	}
 	wg.Add(ego.Count())
 	for key, item := range ego.val {
+		verifPoint("object.ForEachAsync.launch")
 		go step(&wg, key, item.getVal())
 	}
+	verifPoint("object.ForEachAsync.wait")
 	wg.Wait()
 	return ego.Ego()
 }
@@ -556,11 +559,14 @@ func (ego *object) MapAsync(function func(string, any) any) Object {
 		mutex.Lock()
 		result.Set(k, function(k, x))
 		mutex.Unlock()
+		verifPoint("object.MapAsync.done")
 		group.Done()
 	}
 	for key, item := range ego.val {
+		verifPoint("object.MapAsync.launch")
 		go step(&wg, key, item.getVal())
 	}
+	verifPoint("object.MapAsync.wait")
 	wg.Wait()
 	return result
 }
